@@ -31,8 +31,11 @@ IFACES = {
     "B": {"doc": "one", "params": [{"typ": "float", "def": "float_pos", "doc": "plain"}, {"typ": "bool", "def": "bool_T", "doc": "plain"},
                                     {"typ": "int", "def": "int_neg", "doc": "plain"}], "ret": {"typ": "none", "def": "absent", "doc": "absent"}},
     "C": {"doc": "one", "params": [{"typ": "str", "def": "str", "doc": "dot"}], "ret": {"typ": "none", "def": "absent", "doc": "absent"}},
+    # a required parameter (no default) of a non-builtin type, then a defaulted one
+    "D": {"doc": "one", "params": [{"typ": "Opt_float", "def": "absent", "doc": "plain"}, {"typ": "int", "def": "int_pos", "doc": "plain"}],
+          "ret": {"typ": "none", "def": "absent", "doc": "absent"}},
 }
-SALT = {"A": 0, "A2": 0, "B": 2, "C": 3}
+SALT = {"A": 0, "A2": 0, "B": 2, "C": 3, "D": 1}
 BEFORE = "import os\nfrom typing import Optional\n\nBEFORE_CONSTANT = 1\n\n\ndef unrelated_before(q=1):\n    \"\"\"not a target\"\"\"\n    return q\n\n\n"
 AFTER = "\n\nclass UnrelatedAfter(object):\n    \"\"\"not a target\"\"\"\n\n    z: int = 0\n\n\nAFTER_CONSTANT = 2\n"
 
@@ -77,6 +80,22 @@ def core_of(kind, text):
         return "target not found"
     ir = real.plain(parser(copy.deepcopy(node)))
     return [[n, e.get("typ"), e.get("default"), G.canon_doc(e.get("doc"))] for n, e in ir["params"]]
+
+
+def equivalent(kind, got, want, truth_kind):
+    """a target's core equals the truth's.  Where the FUNCTION format is on either side its documented normalisation applies: a
+    parameter without default is shown as `=None`, so `Optional[..] = None` and `Optional[..]` without default cannot be told apart"""
+    if got == want or "fn" not in (kind, truth_kind) or not isinstance(got, list) or not isinstance(want, list) or len(got) != len(want):
+        return got == want
+    none = ["str", repr(G.NoneStr)]
+
+    def same(g, w):
+        if g == w:
+            return True
+        if [g[0], g[1], g[3]] != [w[0], w[1], w[3]]:
+            return False
+        return (kind == "fn" and w[2] is None and g[2] == none) or (truth_kind == "fn" and w[2] == none and g[2] is None)
+    return all(same(g, w) for g, w in zip(got, want))
 
 
 def around_of(text):
@@ -156,7 +175,7 @@ def run_case(args):
                     continue
                 except Exception as e:  # noqa
                     got = "parser raises {}".format(type(e).__name__)
-                if got != want_core:
+                if not equivalent(k, got, want_core, truth):
                     res["fails"].append(("AllEquivalent:" + k, "run {}: target {} parses to {} but the truth is {}".format(run_no, k, got, want_core)))
                 if k in original and original[k].strip():
                     try:
@@ -192,7 +211,8 @@ def _check(run, replay, work):
 
     run.rule = ("behaviour = initial triple (class file, method file, argparse file; each missing / empty / holding one of three mutually "
                 "different interfaces with or without surrounding code) x truth x consecutive runs; distinct = distinct (triple, truth)")
-    run.assumptions += ["the three interfaces are in the common representable domain (scalars with defaults), so every format can carry them",
+    run.assumptions += ["the interfaces are in the common representable domain (scalars with defaults; D has one required Optional[float]), so every "
+                        "format can carry them; a None default of an Optional parameter in a function equals `no default` (documented normalisation)",
                         "equivalence is judged on names, order, types, defaults and descriptions as returned by the matching real parser"]
     quick = run.tier == "quick"
     run.tlc("Sync", "MC_Sync_ideal.cfg", workers=4, timeout=600)
